@@ -183,6 +183,25 @@ def oracle(s):
     if npos > 50:
         return None
     sample = {'str': 'x', 'int': 65, 'float': 2.5}
+    # an argument reported with an EMPTY type set: no argument "of a reported type" exists for it (the model never reports one:
+    # C13_py_types_inhabited). It is a failing input when indeed no str / int / float value in that place lets str.format succeed.
+    empty = [k for k, ts in sig.items() if ts == ['']]
+    if empty:
+        outcomes = []
+        for t in ('str', 'int', 'float'):
+            args = [0] * npos
+            kw = {}
+            for k, ts in sig.items():
+                v = sample[t if ts == [''] else ts[0]]
+                if k.startswith('N'):
+                    args[int(k[1:])] = v
+                else:
+                    kw[common.dec_str(k[1:])] = v
+            outcomes.append(live_format_class(s, args, kw))
+        if all(c != 'Success' for c in outcomes):
+            return ('py-accepted-not-formattable', 'accepted with %s: an argument is reported with no admissible type, and %r.format fails with a str, an int and a float '
+                    'in its place (%s)' % (r[3:], s, ', '.join(outcomes)), None)
+        return None
     for variant in range(3):
         args = [0] * npos
         kw = {}
@@ -220,6 +239,12 @@ def cases(ctx):
     for n in range(kk + 1):
         for t in itertools.product(SP, repeat=n):
             out.append('{:' + ''.join(t) + '}')
+    # one argument used several times with different conversions and specs (the reported types are those common to ALL its uses)
+    USES = ['', ':d', ':s', ':.2', ':e', ':n', ':c', ':%', ':,', ':x', '!r:s', ':>10', ':+', ':10', ':.1%', ':05']
+    for key in ('0', 'a'):
+        for n in (2, 3) if ctx.quick() else (2, 3, 4):
+            for t in itertools.product(USES, repeat=n):
+                out.append(' '.join('{' + key + u + '}' for u in t))
     nrand = 20000 if ctx.quick() else 400000
     for _ in range(nrand):
         s = ''.join(rng.choice(FRAGS) for _ in range(rng.randrange(1, 5)))
